@@ -171,4 +171,33 @@ theorem ringVal_roll (xs : List Rat) (s j : Nat) (hne : xs ≠ []) : ringVal (ro
 theorem ringVal_congr (xs : List Rat) (a b : Nat) (h : a % xs.length = b % xs.length) :
     ringVal xs a = ringVal xs b := by unfold ringVal; rw [h]
 
+
+theorem sdcGo_append_invalid (d : List Rat → List Rat) (hd : d [] = []) (rest : List (Rat × Bool)) (y : Rat) (acc : List Rat) :
+    sdcGo d (rest ++ [(y, false)]) acc = sdcGo d rest acc ++ [0] := by
+  induction rest generalizing acc with
+  | nil => simp [sdcGo, hd]
+  | cons c cs ih =>
+    obtain ⟨x, v⟩ := c
+    cases v <;> simp [sdcGo, ih]
+
+theorem sdcGo_cons_valid_then_invalid (d : List Rat → List Rat) (hd1 : ∀ x, (d [x]).length = 1)
+    (l y : Rat) (rest : List (Rat × Bool)) :
+    (sdcGo d ((l, true) :: (y, false) :: rest) []).drop 1 = 0 :: sdcGo d rest [] := by
+  simp only [sdcGo, List.reverse_cons, List.reverse_nil, List.nil_append]
+  have := hd1 l
+  match h : d [l] with
+  | [] => rw [h] at this; simp at this
+  | [a] => simp
+  | a :: b :: t => rw [h] at this; simp at this
+
+
+theorem sdcGo_split_invalid (d : List Rat → List Rat) (rest tail : List (Rat × Bool)) (y : Rat) (acc : List Rat) :
+    sdcGo d (rest ++ (y, false) :: tail) acc = sdcGo d rest acc ++ 0 :: sdcGo d tail [] := by
+  induction rest generalizing acc with
+  | nil => simp [sdcGo]
+  | cons c cs ih =>
+    obtain ⟨x, v⟩ := c
+    cases v <;> simp [sdcGo, ih]
+
+
 end DFV.C04
